@@ -317,9 +317,13 @@ def hyp_routes(draw, tier):
         # directed: clones nested in each other whose un-nested (grand)children collide one or two levels up
         g, x = draw(st.sampled_from([("e", "f"), ("a", "b"), ("c", "d")]))
         inner = [g, [[x, []]]] if draw(st.booleans()) else [g, [[g, [[x, []]]]]]
-        variant = draw(st.sampled_from(["two-levels-up", "inner-sibling"]))
+        variant = draw(st.sampled_from(["two-levels-up", "inner-sibling", "indirectly-nested"]))
         if variant == "two-levels-up":
             pat = [[g, [inner, ["a1", []]]], [x, []]]
+        elif variant == "indirectly-nested":
+            # a clone two levels below another clone (g > m > g' > x) while m already has a child with x's data:
+            # un-nesting the whole clone group puts x next to it
+            pat = [[g, [["m1", [[g, [[x, []]]], [x, []]]]]]]
         else:
             # the inner clone's own child collides with the inner clone's sibling (remove inner, keep_children)
             pat = [[g, [[g, [[x, []], ["a1", []]]], [x, []]]]]
